@@ -169,14 +169,15 @@ class Lexer(ITokenizer):
 		Returns:
 			トークンドメイン
 		Raises:
-			AssertionError: 未分類の文字種を処理
+			Errors.Syntax: 未分類の文字種を処理
 		"""
 		for token_domain in self._definition.analyze_order:
 			analyzer = self._analyzers[token_domain]
 			if analyzer(source, begin):
 				return token_domain
 
-		assert False, Errors.Never(f'Undetermine token domain. {source[begin]}')
+		line_no = source.count('\n', 0, begin) + 1
+		raise Errors.Syntax(f'Undetermine token domain. token: {repr(source[begin])}, line: {line_no}')
 
 	def analyze_white_spece(self, source: str, begin: int) -> bool:
 		"""トークンドメインを解析(空白)
